@@ -171,14 +171,17 @@ theorem ro (t : Tree) : ∀ (x : Ctx) (s : ISt), x.f.mut = false → RO s (im t 
       · trivial
   | throw => intro x s _; simp only [im]; exact ro_raise _ _
   | abort => intro x s _; simp [im, RO]
-  | native o fl cb ih =>
+  | native inner o fl cb k ih ihk =>
     intro x s hm
     simp only [im]
     split
-    · have hm' := and_mut_false fl hm
-      have hw : (x.f.and fl).w = false := by
-        cases hx : (x.f.and fl); simp_all [Flags.mut]
-      have hn : ∀ v, natStep o x.c (x.f.and fl) v = none := by
+    · have hw : (if inner = true then x.f else x.f.and fl).w = false := by
+        have h1 : x.f.w = false := by cases hx : x.f; simp_all [Flags.mut]
+        have h2 : (x.f.and fl).w = false := by
+          have := and_mut_false fl hm
+          cases hx : (x.f.and fl); simp_all [Flags.mut]
+        cases inner <;> simp [h1, h2]
+      have hn : ∀ v, natStep o x.c (if inner = true then x.f else x.f.and fl) v = none := by
         intro v; cases o <;> simp [natStep, hw]
       simp only [hn]
       trivial
@@ -574,16 +577,17 @@ theorem sim (t : Tree) : ∀ (x : Ctx) (s : ISt) (S : St), safe t = true → R s
         rcases hb with ⟨S1, e1⟩ | ⟨hh, S1, e1⟩
         · rw [e1]; exact Or.inl ⟨S1, rfl⟩
         · exact absurd hh (by simp)
-  | native o fl cb ih =>
+  | native inner o fl cb k ih ihk =>
     intro x s S hs hR hp
-    simp only [safe] at hs
+    simp only [safe, Bool.and_eq_true] at hs
     have hexc : s.exc = false := by
       rcases hp with h | h
       · exact h
       · simp [callFree] at h
     simp only [im, sp]
     split
-    · generalize hw : (x.inTry && (x.f.and fl).mut) = wrapped
+    · generalize (if inner = true then x.f else x.f.and fl) = f'
+      generalize hw : (!inner && x.inTry && f'.mut) = wrapped
       have hR0 : R (if wrapped = true then s.push else s) S := by
         split
         · exact R_push hR
@@ -596,39 +600,68 @@ theorem sim (t : Tree) : ∀ (x : Ctx) (s : ISt) (S : St), safe t = true → R s
       have hbel : s0.below = (if wrapped = true then s.top :: s.below else s.below) := by
         rw [← hs0]; split <;> simp [ISt.push]
       rw [hR0.1]
-      cases hn : natStep o x.c (x.f.and fl) S.σ.get with
+      cases hn : natStep o x.c f' S.σ.get with
       | none => exact Or.inl ⟨S, rfl⟩
       | some out =>
         simp only
+        -- the rest of the native method inside the frame, then the unload callback
+        have tail : ∀ (s2 : ISt) (S2 : St), R s2 S2 → s2.below = s0.below → s.ev <+: s2.ev → s2.exc = false →
+            Rel x (x.inTry || callFree (.native inner o fl cb k)) s
+              (match im k ⟨x.c, f', false, x.h⟩ s2 with
+                | .norm s3 => .norm (s3.unload wrapped s.ev.length)
+                | .thrown s3 => .fault s3
+                | .fault s3 => .fault s3)
+              (match sp k x.c f' S2 with
+                | .norm s3 => .norm s3
+                | .thrown s3 => .fault s3
+                | .fault s3 => .fault s3) := by
+          intro s2 S2 r2 b2 p2 e2
+          have hk := ihk ⟨x.c, f', false, x.h⟩ s2 S2 hs.2 r2 (Or.inl e2)
+          simp only at hk
+          cases hrk : im k ⟨x.c, f', false, x.h⟩ s2 with
+          | norm s3 =>
+            rw [hrk] at hk
+            obtain ⟨S3, k1, k2, k3, k4, k5⟩ := hk
+            rw [k1]
+            have he3 : s3.exc = false := k5 e2
+            obtain ⟨u1, u2, u3, u4⟩ := unload_norm (s := s) (wrapped := wrapped) s.ev.length k2 ((k3.trans b2).trans hbel) he3
+            exact ⟨S3, rfl, u1, u2, by rw [u3]; exact p2.trans k4, fun _ => u4⟩
+          | thrown s3 =>
+            rw [hrk] at hk
+            obtain ⟨_, S3, k1, _⟩ := hk
+            rw [k1]; exact Or.inl ⟨S3, rfl⟩
+          | fault s3 =>
+            rw [hrk] at hk
+            rcases hk with ⟨S3, k1⟩ | ⟨_, S3, k1⟩
+            · rw [k1]; exact Or.inl ⟨S3, rfl⟩
+            · rw [k1]; exact Or.inl ⟨S3, rfl⟩
         have hR1 : R { s0 with top := out.ws ++ s0.top, ev := s0.ev ++ out.evs }
             { S with σ := out.ws ++ S.σ, ev := S.ev ++ out.evs } := by
           refine ⟨?_, ?_, hR0.2.2⟩
           · simp only [ISt.view, List.append_assoc]; rw [← hR0.1]; rfl
           · simp only [hR0.2.1]
+        have hp1 : s.ev <+: s0.ev ++ out.evs := by rw [hev0]; exact List.prefix_append _ _
+        simp only [imPhase, spPhase]
         cases hcb : out.cb with
         | none =>
           simp only
-          obtain ⟨u1, u2, u3, u4⟩ := unload_norm (s := s) (wrapped := wrapped) s.ev.length hR1 hbel hexc0
-          refine ⟨_, rfl, u1, u2, ?_, fun _ => u4⟩
-          rw [u3, hev0]; exact List.prefix_append _ _
+          exact tail _ _ hR1 rfl hp1 hexc0
         | some to =>
           simp only
-          split
-          · exact Or.inl ⟨_, rfl⟩
-          have hb := ih ⟨to, x.f.and fl, false, x.h⟩ { s0 with top := out.ws ++ s0.top, ev := s0.ev ++ out.evs }
-            { S with σ := out.ws ++ S.σ, ev := S.ev ++ out.evs } hs hR1 (Or.inl hexc0)
+          by_cases hab : out.cbAbort = true
+          · simp only [hab, if_true]; exact Or.inl ⟨_, rfl⟩
+          simp only [hab, if_false, Bool.false_eq_true]
+          have hb := ih ⟨to, f', false, x.h⟩ { s0 with top := out.ws ++ s0.top, ev := s0.ev ++ out.evs }
+            { S with σ := out.ws ++ S.σ, ev := S.ev ++ out.evs } hs.1 hR1 (Or.inl hexc0)
           simp only at hb
-          cases hr : im cb ⟨to, x.f.and fl, false, x.h⟩ { s0 with top := out.ws ++ s0.top, ev := s0.ev ++ out.evs } with
+          cases hr : im cb ⟨to, f', false, x.h⟩ { s0 with top := out.ws ++ s0.top, ev := s0.ev ++ out.evs } with
           | norm s2 =>
             rw [hr] at hb
             obtain ⟨S2, e1, e2, e3, e4, e5⟩ := hb
             rw [e1]
             have he2 : s2.exc = false := e5 hexc0
             simp only [he2, Bool.false_eq_true, if_false]
-            obtain ⟨u1, u2, u3, u4⟩ := unload_norm (s := s) (wrapped := wrapped) s.ev.length e2 (e3.trans hbel) he2
-            refine ⟨_, rfl, u1, u2, ?_, fun _ => u4⟩
-            rw [u3]
-            exact (List.prefix_append _ _).trans (by rw [← hev0]; exact e4)
+            exact tail s2 S2 e2 e3 (hp1.trans e4) he2
           | thrown s2 =>
             rw [hr] at hb
             obtain ⟨_, S2, e1, _⟩ := hb
